@@ -99,6 +99,7 @@ def extract_table(prog, body, gargs=(), K=4096, by_ref=False, split_enum=False):
             walk(av, ())
             if isinstance(a, IntV):
                 adesc = describe(prog, s, a, syms)
+                adesc = refine_by_bits(I_, s, a, adesc)
             else:
                 adesc = describe(prog, s, av, syms)
             rows.append({"arg": adesc, "ret": describe(prog, s, rv, syms)})
@@ -160,3 +161,63 @@ def int_table(rows):
         else:
             default.append(r)
     return exact, default
+
+
+
+def refine_by_bits(I, st, a, adesc):
+    """an integer argument whose class on this path is fixed through values derived from its bits (`n >> 5`, `n & 0x1F`
+    pinned by a match on the pair): the argument values consistent with those pinned fields are enumerated (finite
+    domain, <= 2^16), which turns 'class 2, detail 5' back into the single number 69"""
+    if not isinstance(adesc, dict) or "range" not in adesc or "sym" not in adesc:
+        return adesc
+    sym = adesc["sym"]
+    lo, hi = adesc["range"]
+    if hi - lo > 65535:
+        return adesc
+    excl = set(adesc.get("excl", ()))
+    derived = []
+    for x, inf in I.syminfo.items():
+        if not (inf and inf[0] == "bits") or x not in st.bounds:
+            continue
+        bits = inf[1]
+        if not all(b in (0, 1) or (isinstance(b, tuple) and b[1] == sym) for b in bits):
+            continue
+        if not any(isinstance(b, tuple) for b in bits):
+            continue
+        blo, bhi = st.lo_hi(x)
+        bex = st.excl.get(x, frozenset())
+        tlo = sum((1 if b == 1 else 0) << i for i, b in enumerate(bits))
+        thi = sum((0 if b == 0 else 1) << i for i, b in enumerate(bits))
+        if (blo, bhi) == (tlo, thi) and not bex:
+            continue        # not constrained on this path
+        derived.append((bits, blo, bhi, bex))
+    if not derived:
+        return adesc
+    allowed = []
+    for v in range(lo, hi + 1):
+        if v in excl:
+            continue
+        ok = True
+        for bits, blo, bhi, bex in derived:
+            d = 0
+            for i, b in enumerate(bits):
+                bit = b if b in (0, 1) else (v >> b[2]) & 1
+                d |= bit << i
+            if d < blo or d > bhi or d in bex:
+                ok = False
+                break
+        if ok:
+            allowed.append(v)
+    if not allowed:
+        return adesc
+    if len(allowed) == 1:
+        return {"int": allowed[0]}
+    nlo, nhi = allowed[0], allowed[-1]
+    out = dict(adesc)
+    out["range"] = [nlo, nhi]
+    ex = sorted(set(range(nlo, nhi + 1)) - set(allowed))
+    if ex:
+        out["excl"] = ex
+    else:
+        out.pop("excl", None)
+    return out
